@@ -115,6 +115,20 @@ CLAIMS = {
         "note": _TRUST + "hashlib digest sizes are read from the platform.",
         "technique": "static analysis: regex structure analysis of folded pattern fragments, decision-table extraction on match_hostname, def-use on assert_fingerprint",
     },
+    "C09": {
+        "text": ("Decides the routing structure: the complete decision table of connection_requires_http_tunnel equals proxy and scheme "
+                 "!= http and not (https proxy and config and forwarding), forwarding being opt-in; the three call sites evaluate it with "
+                 "the configured proxy, its config and this request's parsed scheme; proxy headers are merged into request headers only on "
+                 "paths where no tunnel is required and otherwise flow only to set_tunnel(headers=...) and the pool key; with a tunnel "
+                 "required and the connection closed, _prepare_proxy (set_tunnel then connect) precedes the request on every path, the "
+                 "closed test is consulted on every tunnel path, and close() clears the tunnel fields; inside HTTPSConnection.connect the "
+                 "order is proxy TLS (https proxy) -> _tunnel() -> origin wrap, tls_in_tls exactly on the https arm, proxy TLS verified "
+                 "against the proxy's host with the proxy_config assertions; HTTPS pools dial the proxy; CONNECT targets the "
+                 "bracket-preserving _tunnel_host and the pool's port; the manager passes the absolute URL iff proxy without tunnel, else "
+                 "request_uri. Declined: bytes received by proxy and origin."),
+        "note": _TRUST + "http.client's _tunnel()/set_tunnel are trusted for the CONNECT exchange itself. F11 (C04-R8, shared) is a known finding.",
+        "technique": "static analysis: decision-table extraction, taint/provenance through abstract interpretation of the drivers, event-order typestate in connect()",
+    },
     "C16": {
         "text": ("Deliberately narrow. Decides only the storage discipline behind the multimap: every access to the storage dict uses a "
                  "lower-cased key; every list stored is built in that statement, copies build per-key fresh lists and no method returns a "
@@ -163,4 +177,4 @@ CLAIMS = {
 _PENDING = "check not built yet in this session (static rules designed in DESIGN.md section 5); will be claimed once its rules run clean"
 
 NOT_APPLICABLE = {pid: _PENDING for pid in
-                  ["C09", "C10", "C11", "C12", "C13", "C14", "C15", "C19"]}
+                  ["C10", "C11", "C12", "C13", "C14", "C15", "C19"]}
